@@ -83,6 +83,22 @@ def what(t, v):
             f"cfg={json.dumps(c)}; event={json.dumps(ev)[:900]}; history={[(e['op'], [s['steps'] for s in e['slots']] if e['op'] == 'gen' else e.get('steps')) for e in t['ev'][:v.step]]}")
 
 
+def per_gen(kind, ne, ls, evo):
+    """environment steps one agent takes per generation (NIter x Unit of TrainLoop_Fine.tla) with its initial learn_step"""
+    if kind in ("off", "ma_off"):
+        return (evo // ne) * ne
+    if kind in ("on", "ma_on"):
+        return -(evo // -ls) * -(ls // -ne) * ne
+    return evo
+
+
+def _exact(c):
+    """the budget is reached exactly at a generation boundary (where `<` and `<=` in the loop condition differ)"""
+    lp, par = c["lp"], c["par"]
+    g = per_gen(lp["kind"], lp["ne"], lp["ls"], lp["evo"]) * (par["k"] if par["rule"] == "sum" else 1)
+    return g > 0 and par["max"] % g == 0
+
+
 def configurations(cases, quick, seed):
     """Seeded, stratified choice among TLC's configurations + the decorations TLC does not enumerate (algorithm,
     memory kind, mutation kind, checkpoints, learning delay, episode length, single / vectorised)."""
@@ -105,7 +121,8 @@ def configurations(cases, quick, seed):
                 # first cover distinct (num_envs, learn_step) pairs with evolution on, then anything
                 for c in pool:
                     pair = (c["lp"]["ne"], c["lp"]["ls"])
-                    if len(picked) < per and pair not in seen_pairs and (c["par"]["evo"] or len(picked) % 3 == 2) and c["par"]["k"] >= 2:
+                    if (len(picked) < per and pair not in seen_pairs and (c["par"]["evo"] or len(picked) % 3 == 2) and c["par"]["k"] >= 2
+                            and _exact(c) == (len(picked) % 2 == 0)):        # alternate: budget hit exactly / overshot
                         seen_pairs.add(pair)
                         picked.append(c)
                 for c in pool:
@@ -174,6 +191,8 @@ def run(ctx):
         # ---- M1
         ctx.mc("TrainLoop_MC", "TrainLoop_MCq.cfg" if quick else "TrainLoop_MC.cfg",
                must_cover=["Next|Generation|GenerationC|GenBody", "MCSelect|SelectMutate", "Return"])
+        if not quick:
+            ctx.mc("TrainLoop_MC", "TrainLoop_MC3.cfg", must_cover=["Next|Generation|GenerationC|GenBody", "MCSelect|SelectMutate", "Return"])
         ctx.mc("TrainLoop_Fine", "TrainLoop_Fineq.cfg" if quick else "TrainLoop_Fine.cfg",
                must_cover=["FStartGen", "FStep", "FEndRollout", "FEvaluate", "FSelect", "FReturn"])
         neg = {}
